@@ -112,6 +112,8 @@ mod textvalidation;
 
 #[cfg(feature = "csv")]
 pub use crate::csv::{FromCsv, ToCsv};
+#[cfg(all(stam_verif, feature = "csv"))]
+pub use crate::csv::verif_hooks_csv;
 
 pub use annotation::{Annotation, AnnotationBuilder, AnnotationHandle};
 pub use annotationdata::{AnnotationData, AnnotationDataBuilder, AnnotationDataHandle};
